@@ -400,8 +400,8 @@ Section Update.
                                 match st_read s8 with
                                 | None => UFail w7
                                 | Some (c2, s9) =>
+                                    (* if (c != ',') { if (!stream->Unread(c)) return false; } *)
                                     if c2 =? ch_comma then array_loop f n e path (i + 1) s9 w7
-                                    else if negb (c2 =? ch_rbrace) then UFail w7
                                     else match st_unread c2 s9 with
                                          | Some s10 => array_loop f n e path (i + 1) s10 w7
                                          | None => UFail w7
